@@ -8,6 +8,7 @@
   differential run of `./check C05` (go/internal/c05).
 -/
 import ClairModel.Proofs.Match
+import ClairModel.Proofs.MatchProto
 
 namespace ClairModel.Props.C05
 open ClairModel ClairModel.Match
@@ -424,5 +425,115 @@ theorem enricher_errors_skipped (es : List Enricher) (r : Report) (k msg : Nat) 
       | nil => cases hmsg
       | cons _ _ => rfl
     simp [hr, this]
+
+/-! ## The channel protocol of EnrichedMatch's matching phase
+
+  Model/MatchProto.lean: sender, `lim` workers, collector, `mCh`, `vCh`,
+  `mctx`; one transition per channel operation / return.  The theorems hold
+  for every `lim ≥ 1`, any number of matchers, any interleaving, any pattern
+  of matcher failures and any moment of cancellation by the caller (all of
+  these are the operation sequence `ops`).  The machine is tied to match.go by
+  the controlled-schedule runs of the harness (hook points `em.*`). -/
+
+section Protocol
+open ClairModel.MatchProto
+
+/-- No send on a closed channel and no second close, ever: no reachable state
+    has panicked and no transition out of a reachable state reports a panic. -/
+theorem protocol_no_send_on_closed (lim : Nat) (ms : List Nat) (ops : List Op) :
+    (Sm.run step (init lim ms) ops).panicked = false ∧
+      ∀ op, (step (Sm.run step (init lim ms) ops) op).2 ≠ .panic :=
+  ⟨(reachable_inv lim ms ops).noPanic, fun op => step_never_panics (reachable_inv lim ms ops) op⟩
+
+/-- Each channel is closed exactly once: never more than once, `mCh` exactly
+    when the sender has left its loop, `vCh` exactly when the sender has
+    returned (which every final state has). -/
+theorem protocol_close_once (lim : Nat) (ms : List Nat) (ops : List Op) :
+    let s := Sm.run step (init lim ms) ops
+    (s.mCloses = if s.sender = .sending then 0 else 1) ∧
+    (s.vCloses = if s.sender = .done then 1 else 0) ∧
+    (final s = true → s.mCloses = 1 ∧ s.vCloses = 1) := by
+  intro s
+  have h := reachable_inv lim ms ops
+  refine ⟨?_, ?_, ?_⟩
+  · by_cases hs : s.sender = .sending
+    · simp only [hs, if_true]; exact h.mSending hs
+    · simp only [hs, if_false]; exact h.mAfter hs
+  · by_cases hs : s.sender = .done
+    · simp only [hs, if_true]; exact h.vAfter hs
+    · simp only [hs, if_false]; exact h.vBefore hs
+  · intro hf
+    simp only [final, Bool.and_eq_true, beq_iff_eq] at hf
+    exact ⟨h.mAfter (by rw [hf.1.1]; intro x; cases x), h.vAfter hf.1.1⟩
+
+/-- Deadlock freedom: in every reachable state in which some goroutine has
+    not returned, some transition of the code itself can happen (not counting
+    the caller's cancellation, and counting a worker's context check only
+    with the outcome the current context state dictates). -/
+theorem protocol_deadlock_free (lim : Nat) (hlim : 0 < lim) (ms : List Nat) (ops : List Op)
+    (hnf : final (Sm.run step (init lim ms) ops) = false) :
+    ∃ op, honest (Sm.run step (init lim ms) ops) op = true ∧
+      (step (Sm.run step (init lim ms) ops) op).2 = .ok := by
+  have h := reachable_inv lim ms ops
+  apply exists_enabled h _ hnf
+  have : ∀ (ops : List Op) (s : State), (Sm.run step s ops).lim = s.lim := by
+    intro ops
+    induction ops with
+    | nil => intro s; rfl
+    | cons op ops ih => intro s; rw [Sm.run_cons, ih, lim_const]
+  rw [this]
+  exact hlim
+
+/-- `lim ≥ 1` is needed (and holds: `lim` is GOMAXPROCS): without a worker the
+    sender waits forever unless the caller cancels. -/
+theorem protocol_deadlock_without_workers_counterexample :
+    final (init 0 [7]) = false ∧ ∀ op, honest (init 0 [7]) op = true → (step (init 0 [7]) op).2 = .disabled := by
+  refine ⟨by decide, ?_⟩
+  intro op hh
+  cases op <;> simp [step, init, allReturned, honest] at hh ⊢
+
+/-- Termination: a run in which every operation is a transition that happens
+    has at most `6·|matchers| + lim + 5` steps — each matcher result is handed
+    off, checked, computed, sent and collected once, each goroutine returns
+    once.  (Matchers are assumed to return: `finish` is a transition.) -/
+theorem protocol_terminates (lim : Nat) (ms : List Nat) (ops : List Op)
+    (h : allOk (init lim ms) ops = true) : ops.length ≤ 6 * ms.length + lim + 5 := by
+  have := run_length_bound (init lim ms) ops h
+  rw [measure_init] at this
+  omega
+
+/-- No lost and no duplicated result: when every goroutine has returned and
+    the phase reports no error, the collector has folded exactly one result
+    per matcher. -/
+theorem protocol_no_lost_results (lim : Nat) (ms : List Nat) (ops : List Op)
+    (hf : final (Sm.run step (init lim ms) ops) = true)
+    (hok : (Sm.run step (init lim ms) ops).senderErr = false) :
+    (Sm.run step (init lim ms) ops).collected.Perm ms :=
+  final_ok_collected (reachable_inv lim ms ops) hf hok
+
+/-- A failing matcher makes the phase report an error, whatever happens
+    before and after. -/
+theorem protocol_failure_is_error (lim : Nat) (ms : List Nat) (ops₁ ops₂ : List Op) (w : Nat)
+    (hfin : (step (Sm.run step (init lim ms) ops₁) (.finish w false)).2 = .ok)
+    (hf : final (Sm.run step (init lim ms) (ops₁ ++ .finish w false :: ops₂)) = true) :
+    (Sm.run step (init lim ms) (ops₁ ++ .finish w false :: ops₂)).senderErr = true := by
+  have h := reachable_inv lim ms (ops₁ ++ .finish w false :: ops₂)
+  simp only [final, Bool.and_eq_true, beq_iff_eq] at hf
+  apply h.doneErr hf.1.1
+  rw [Sm.run_append, Sm.run_cons]
+  exact failed_mono_run _ _ (finish_false_fails _ w hfin)
+
+/-- A caller's cancellation that precedes the return of `mg.Wait` makes the
+    phase report an error (the line added by the `fix:` commit). -/
+theorem protocol_cancel_is_error (s : State) (hc : s.parentCancelled = true)
+    (hw : (step s .senderWait).2 = .ok) : (step s .senderWait).1.senderErr = true := by
+  simp only [step] at hw ⊢
+  split
+  · split
+    · simp [hc]
+    · rename_i h1 h2; simp [h1, h2] at hw
+  · rename_i h1; simp [h1] at hw
+
+end Protocol
 
 end ClairModel.Props.C05
